@@ -2,6 +2,8 @@
 import os
 import json
 import shutil
+import hashlib
+import tempfile
 import subprocess
 from concurrent.futures import ThreadPoolExecutor
 
@@ -17,7 +19,19 @@ RULE = ("tie: the filesystem events of a real edit (open/write/close/replace/rem
         "limits (RLIMIT_FSIZE at several byte counts, with SIGXFSZ ignored -> EFBIG, and not ignored -> killed by signal); requests "
         "whose value cannot be encoded; after each run the bytes at the metafile path must be exactly the original or exactly the "
         "reference edit's output (the latter only if the fault came after the replace, when an error was raised).  The space "
-        "(operation x fault kind) is enumerated completely for each (metafile, request) pair; distinct = distinct (metafile, request, fault).")
+        "(operation x fault kind) is enumerated completely for each (metafile, request) pair; distinct = distinct (metafile, request, fault).  "
+        "HISTORIES of faults: an earlier edit (a request whose encoding is LONGER / SHORTER / the SAME length as the new one) KILLED before "
+        "and after every operation and in the middle of its write, then an ordinary edit in the same directory -- whatever the killed "
+        "edit left behind (a stale temp file longer, shorter or as long as the new encoding) must not reach the metafile: it holds "
+        "exactly the reference edit's output (or, had the edit raised, the previous file); PLANTED stale files under every name the "
+        "edit was seen to write beside the metafile (0, 1, len-1, len, len+1, len+4096, 3 x len bytes; an empty and a non-empty "
+        "directory).  The metafile on ANOTHER FILESYSTEM than the temp directory ($TMPDIR is set to a scratch directory on the "
+        "ordinary one, the metafile lives under /dev/shm; counted as skipped when no second filesystem is writable): the complete "
+        "(operation x fault) enumeration again there, where a move degrades to copy + unlink: events are also the low-level ones "
+        "(os.open / os.write / os.close on descriptors, os.sendfile / copy_file_range, file objects over descriptors, io.open, "
+        "paths directly in $TMPDIR).  Values that cannot be encoded: float, object, set in a list, and TEXT THAT IS NOT UTF-8 "
+        "ENCODABLE (a lone surrogate, as sys.argv yields for a Latin-1 byte) in comment / source / a tracker / a web seed, through "
+        "edit_torrent and through `torrentfile edit`.")
 TRUSTED_BASE = [
     "Coq 8.16.1 kernel; theorems closed under the global context",
     "Spec/FsOps.v: the crash/error semantics (buffered write may leave any prefix until close; os.replace atomic) is the specification a reviewer reads",
@@ -54,9 +68,21 @@ REQUESTS = [
     ("clear-comment", {"comment": "", "announce": None}),
     ("set-webseed", {"url-list": ["http://w/1", "http://w/2"], "httpseeds": "http://h/1"}),
 ]
-UNENCODABLE = [("float-comment", {"comment": {"unencodable": "float"}}),
-               ("object-source", {"source": {"unencodable": "object"}, "announce": "http://x/y"}),
-               ("set-in-list", {"url-list": [{"unencodable": "float"}]})]
+UNENCODABLE = [("float-comment", {"comment": {"unencodable": "float"}}, "lib"),
+               ("object-source", {"source": {"unencodable": "object"}, "announce": "http://x/y"}, "lib"),
+               # text that has no UTF-8 encoding: what sys.argv holds for a Latin-1 byte (surrogateescape)
+               ("surrogate-comment", {"comment": {"unencodable": "surrogate"}}, "lib"),
+               ("surrogate-comment-cli", {"comment": {"unencodable": "surrogate"}, "announce": "http://x/y"}, "cli"),
+               ("surrogate-tracker-cli", {"announce": {"unencodable": "surrogate-list"}}, "cli"),
+               ("set-in-list", {"url-list": [{"unencodable": "float"}]}, "lib"),
+               ("surrogate-source-cli", {"source": {"unencodable": "surrogate"}, "private": True}, "cli"),
+               ("surrogate-webseed", {"url-list": {"unencodable": "surrogate-list"}, "comment": "fine"}, "lib"),
+               ("surrogate-tracker-words", {"announce": {"unencodable": "surrogate-words"}}, "lib"),
+               ("surrogate-httpseed-cli", {"httpseeds": {"unencodable": "surrogate-list"}}, "cli")]
+# the EARLIER edit of a fault history (killed at some operation): its encoding is longer / shorter than the later edit's, or the same
+PRE_REQUESTS = [("longer", {"comment": "stale " * 1200, "source": "left-behind-by-a-killed-edit"}),
+                ("shorter", {"comment": "", "source": "", "announce": "http://s/"}),
+                ("same", None)]
 
 
 # the name of the metafile being edited: the property holds for every name (a temp-file name derived from it by string
@@ -64,15 +90,22 @@ UNENCODABLE = [("float-comment", {"comment": {"unencodable": "float"}}),
 MF_NAMES = ["m.torrent", "upper.TORRENT", "noext", "m.torrent", "a.torrent.bak"]
 
 
-def run_one(workdir, mf_src, req, fault, name="m.torrent"):
-    """copy the metafile into a fresh directory under `name`, run the edit under the fault; returns dict"""
-    os.makedirs(workdir)
-    mf = os.path.join(workdir, name)
-    shutil.copyfile(mf_src, mf)
-    trace = workdir + ".trace"
-    p = subprocess.run([core.PY, RUNNER, mf, json.dumps(req), json.dumps(fault), trace],
-                       env=core.impl_env({"HOME": workdir}), capture_output=True, text=True, timeout=120)
-    after = oracle.read(mf) if os.path.isfile(mf) else None
+def other_fs_root():
+    """a fresh directory on a filesystem OTHER than the one of the temp directory (os.rename between the two fails with EXDEV), or None"""
+    cand = os.environ.get("VERIF_OTHER_FS", "/dev/shm")
+    try:
+        if os.path.isdir(cand) and os.access(cand, os.W_OK | os.X_OK) and os.stat(cand).st_dev != os.stat(tempfile.gettempdir()).st_dev:
+            return tempfile.mkdtemp(prefix="vc17x_", dir=cand)
+    except OSError:
+        pass
+    return None
+
+
+def stale_bytes(n):
+    return (b"STALE-TEMP-FILE-LEFT-BY-A-KILLED-EDIT\xff\x00\n" * (n // 40 + 1))[:n]
+
+
+def read_trace(trace):
     events = []
     if os.path.exists(trace):
         pending = None
@@ -87,9 +120,52 @@ def run_one(workdir, mf_src, req, fault, name="m.torrent"):
             elif pending is not None:
                 pending.update(rec)
         os.remove(trace)
+    return events
+
+
+def run_one(workdir, mf_src, req, fault, name="m.torrent", tmpdir=None):
+    """copy the metafile into a fresh directory under `name`; plant the stale entries fault["stale"] beside it; run the earlier
+       edits fault["pre"] (each {"request", "fault"}, usually killed) and then the edit under the fault, every one in a fresh
+       interpreter whose $TMPDIR is `tmpdir` (default: a directory next to workdir); returns dict"""
+    os.makedirs(workdir)
+    tdir = tmpdir or workdir + ".tmpdir"
+    os.makedirs(tdir, exist_ok=True)
+    mf = os.path.join(workdir, name)
+    shutil.copyfile(mf_src, mf)
+    for st in fault.get("stale", ()):
+        q = os.path.join(workdir, st["name"])
+        if st.get("type") == "dir":
+            os.makedirs(os.path.join(q, "inner") if st.get("nonempty") else q, exist_ok=True)
+        else:
+            with open(q, "wb") as fd:
+                fd.write(stale_bytes(st["size"]))
+    trace = workdir + ".trace"
+    env = core.impl_env({"HOME": workdir, "TMPDIR": tdir})
+
+    def launch(rq, flt):
+        return subprocess.run([core.PY, RUNNER, mf, json.dumps(rq), json.dumps(flt), trace], env=env, capture_output=True, text=True,
+                              timeout=120)
+    mid = stale_left = None
+    pre_rc = []
+    for pre in fault.get("pre", ()):
+        q = launch(pre["request"], pre["fault"])
+        pre_rc.append(q.returncode)
+        read_trace(trace)
+    if fault.get("pre"):
+        mid = oracle.read(mf) if os.path.isfile(mf) else None
+        stale_left = {x: (os.path.getsize(os.path.join(workdir, x)) if os.path.isfile(os.path.join(workdir, x)) else -1)
+                      for x in sorted(os.listdir(workdir)) if x != name}
+        stale_left.update({"$TMPDIR/" + x: os.path.getsize(os.path.join(tdir, x)) for x in sorted(os.listdir(tdir))
+                           if os.path.isfile(os.path.join(tdir, x))})
+    p = launch(req, {k: v for k, v in fault.items() if k not in ("pre", "stale")})
+    after = oracle.read(mf) if os.path.isfile(mf) else None
+    events = read_trace(trace)
     left = sorted(os.listdir(workdir))
+    tmp_left = sorted(os.listdir(tdir))
     shutil.rmtree(workdir, ignore_errors=True)
-    return {"rc": p.returncode, "out": p.stdout.strip()[:200], "after": after, "events": events, "left": left}
+    shutil.rmtree(tdir, ignore_errors=True)
+    return {"rc": p.returncode, "out": p.stdout.strip()[:200], "after": after, "events": events, "left": left, "tmp_left": tmp_left,
+            "mid": mid, "pre_rc": pre_rc, "stale_left": stale_left}
 
 
 def canon_events(events):
@@ -127,6 +203,8 @@ def canon_events(events):
             ops.append(f"ExistsTest {ps[0]}")
         elif k == "encode":
             ops.append("Encode")
+        else:                         # sendfile / copy_file_range / link / symlink / truncate: outside the vocabulary of the specification
+            ops.append("Unknown")
     return ops
 
 
@@ -168,9 +246,9 @@ def judge(f, r, old, new, ridx):
             except Exception as e:  # noqa
                 ok, why = False, f"edit with odd value returned normally and left non-canonical bytes: {e}"
         elif after != old:
-            ok, why = False, "unencodable value: the metafile is no longer the original"
+            ok, why = False, "unencodable value: the edit failed, yet the metafile is no longer the original"
     elif after == old:
-        if r["rc"] == 0:
+        if r["rc"] == 0 and old != new:          # (a request that changes nothing leaves the same bytes: both readings coincide)
             ok, why = False, "edit returned normally but the metafile is unchanged"
     elif after == new:
         if r["rc"] == 3 and f["kind"] in ("raise", "shortwrite") and ridx is not None \
@@ -178,8 +256,105 @@ def judge(f, r, old, new, ridx):
             ok, why = False, "error raised before the replace, yet the edited metafile is in place"
     else:
         ok = False
-        why = f"metafile holds {len(after)} bytes that are neither the original ({len(old)}) nor the edited ({len(new)}) file"
+        why = f"metafile holds {len(after)} bytes that are neither the original ({len(old)}) nor the edited ({len(new) if new is not None else '?'}) file"
     return ok, why
+
+
+def replace_index(events):
+    return next((e["i"] for e in events if e["op"] in ("replace", "rename") and "PM" in e["paths"][1:]), None)
+
+
+def single_faults(events, newlen):
+    """every (operation, fault kind) of one observed trace, plus the kernel-level size limits"""
+    faults = []
+    for i in range(len(events)):
+        faults.append({"kind": "raise", "event_index": i, "exc": "PermissionError"})
+        faults.append({"kind": "raise", "event_index": i, "exc": "ENOSPC"})
+        faults.append({"kind": "kill", "event_index": i, "when": "before"})
+        faults.append({"kind": "kill", "event_index": i, "when": "after"})
+        faults.append({"kind": "raise", "event_index": i, "exc": "ENOSPC", "when": "after"})
+        if events[i]["op"] in ("write", "sendfile"):
+            for frac in (0.0, 0.5, 0.99):
+                faults.append({"kind": "shortwrite", "event_index": i, "frac": frac, "then": "raise"})
+                faults.append({"kind": "shortwrite", "event_index": i, "frac": frac, "then": "kill"})
+    for nbytes in sorted({0, 1, 100, newlen // 2, newlen - 1, 4096, 8192}):
+        if nbytes < newlen:
+            faults.append({"kind": "rlimit", "bytes": nbytes, "ignore_signal": True})
+            faults.append({"kind": "rlimit", "bytes": nbytes, "ignore_signal": False})
+    return faults
+
+
+def kill_faults(events):
+    """the ways an EARLIER edit can have died: before / after every operation, in the middle of a write"""
+    out = []
+    for i in range(len(events)):
+        out.append({"kind": "kill", "event_index": i, "when": "before"})
+        out.append({"kind": "kill", "event_index": i, "when": "after"})
+        if events[i]["op"] in ("write", "sendfile"):
+            out.append({"kind": "shortwrite", "event_index": i, "frac": 0.5, "then": "kill"})
+            out.append({"kind": "shortwrite", "event_index": i, "frac": 0.99, "then": "kill", "flush": True})
+    return out
+
+
+def written_beside(events):
+    """names beside the metafile (and in $TMPDIR) the edit was seen to open for writing: where a stale file can lie"""
+    names = []
+    for e in events:
+        if e["op"] == "open" and any(c in e.get("mode", "r") for c in "wax+"):
+            for x in e["paths"]:
+                if x and x.startswith("PT:") and x[3:] not in names:
+                    names.append(x[3:])
+    return names
+
+
+class Refs:
+    """fault-free edits of given metafile BYTES (cached): the reference an edit after an earlier killed edit is judged against"""
+
+    def __init__(self, tmp):
+        self.tmp, self.cache, self.n = tmp, {}, 0
+
+    def put(self, state, req, result):
+        self.cache[(hashlib.sha1(state).digest(), json.dumps(req, sort_keys=True))] = result
+
+    def get(self, state, req):
+        key = (hashlib.sha1(state).digest(), json.dumps(req, sort_keys=True))
+        if key not in self.cache:
+            self.n += 1
+            src = os.path.join(self.tmp, f"refsrc{self.n}.torrent")
+            with open(src, "wb") as fd:
+                fd.write(state)
+            r = run_one(os.path.join(self.tmp, f"refrun{self.n}"), src, req, {"kind": "none"})
+            os.remove(src)
+            self.cache[key] = r["after"] if r["rc"] == 0 else None
+        return self.cache[key]
+
+
+def effective(f, r, old, new, req, refs):
+    """(old, new, problem) the run is judged against: with earlier (killed) edits in the history the metafile before the last edit
+       must be one of the states the earlier requests lead to, and the expected result is the reference edit of THAT state"""
+    if not f.get("pre"):
+        return old, new, None
+    states = [old]
+    for pre in f["pre"]:
+        for s in list(states):
+            t = refs.get(s, pre["request"])
+            if t is not None and t not in states:
+                states.append(t)
+    mid = r["mid"]
+    if mid is None or mid not in states:
+        return old, new, ("after the earlier killed edit the metafile is " + ("missing" if mid is None else f"{len(mid)} bytes that are "
+                          "neither the original nor the earlier request's edited file"))
+    if mid == old:
+        return old, new, None
+    return mid, refs.get(mid, req), None
+
+
+def fault_kind(f):
+    if f.get("pre"):
+        return "after-killed-edit"
+    if f.get("stale"):
+        return "stale-temp"
+    return f["kind"]
 
 
 def run(ctx, model_ok):
@@ -189,80 +364,149 @@ def run(ctx, model_ok):
     except Exception as e:  # noqa
         gmain = gcleanup = None
         ctx.broken.append(f"translator crashed on edit.py: {type(e).__name__}: {e}")
-    with core.Scratch("vc17_") as tmp:
-        os.environ["HOME"] = tmp
-        metas = make_metafiles(tmp, ctx.rng, ctx.tier)
-        reqs = REQUESTS if ctx.tier == "thorough" else REQUESTS[:2]
-        jobs = []
-        n = 0
-        pair = -1
-        for label, mf in metas:
-            old = oracle.read(mf)
-            for rname, req in reqs:
+    xroot = other_fs_root()
+    try:
+        with core.Scratch("vc17_") as tmp:
+            os.environ["HOME"] = tmp
+            _run(ctx, tmp, xroot, gmain, gcleanup)
+    finally:
+        if xroot:
+            shutil.rmtree(xroot, ignore_errors=True)
+
+
+def _run(ctx, tmp, xroot, gmain, gcleanup):
+    thorough = ctx.tier == "thorough"
+    metas = make_metafiles(tmp, ctx.rng, ctx.tier)
+    reqs = REQUESTS if thorough else REQUESTS[:2]
+    refs = Refs(tmp)
+    jobs = []
+    counter = [0]
+    if xroot is None:
+        ctx.case(key="no-other-fs", classes=["SKIPPED: no second writable filesystem (metafile and $TMPDIR on different filesystems not exercised)"],
+                 nontrivial=False)
+
+    def place(where):
+        counter[0] += 1
+        n = counter[0]
+        return os.path.join(xroot if where == "other-fs" else tmp, f"w{n}"), os.path.join(tmp, f"t{n}")
+
+    def go(mf, req, f):
+        wd, td = place(f.get("where"))
+        return run_one(wd, mf, req, f, name=f.get("metafile_name", "m.torrent"), tmpdir=td)
+
+    pair = -1
+    for li, (label, mf) in enumerate(metas):
+        old = oracle.read(mf)
+        for rname, req in reqs:
+            pair += 1
+            mfname = MF_NAMES[pair % len(MF_NAMES)]
+            wheres = [None] + (["other-fs"] if xroot and (thorough or pair % 2 == li % 2) else [])
+            for where in wheres:
+                tag = {"metafile_name": mfname, **({"where": where} if where else {})}
                 # reference run: no fault
-                n += 1
-                pair += 1
-                mfname = MF_NAMES[pair % len(MF_NAMES)]
-                ref = run_one(os.path.join(tmp, f"w{n}"), mf, req, {"kind": "none"}, name=mfname)
+                ref = go(mf, req, dict(tag, kind="none"))
                 if ref["rc"] != 0 or ref["after"] is None:
-                    ctx.fail("edit-failed-without-fault", {"metafile": label, "request": req, "base_hex": old.hex(), "metafile_name": mfname},
+                    ctx.fail("edit-failed-without-fault", {"metafile": label, "request": req, "base_hex": old.hex(), "metafile_name": mfname,
+                                                           "fault": dict(tag, kind="none")},
                              "edit succeeds and leaves the edited metafile at its path", ref["out"] or f"rc={ref['rc']} metafile present={ref['after'] is not None}")
                     continue
                 new = ref["after"]
+                refs.put(old, req, new)
                 obs = canon_events(ref["events"])
-                ctx.case(key=("ref", label, rname), classes=["fault-free trace"],
-                         sample={"metafile": label, "request": req, "observed_ops": obs} if n == 1 else None)
+                ctx.case(key=("ref", label, rname, where), classes=["fault-free trace"] + (["metafile and $TMPDIR on different filesystems"] if where else []),
+                         sample={"metafile": label, "request": req, "observed_ops": obs} if pair == 0 and not where else None)
                 if gmain is not None:
                     exp = expected_ops(gmain, gcleanup)
                     ctx.traces_validated += 1
                     if obs != exp:
                         ctx.disagree("generated op list of edit_torrent vs observed filesystem events",
-                                     {"metafile": label, "request": req, "base_hex": old.hex()}, exp, obs)
-                if ref["left"] != [mfname]:
-                    ctx.notes.append(f"files left beside the metafile after a successful edit: {ref['left']}")
-                nev = len(ref["events"])
-                replace_idx = next((e["i"] for e in ref["events"] if e["op"] in ("replace", "rename") and "PM" in e["paths"][1:]), None)
-                faults = []
-                for i in range(nev):
-                    faults.append({"kind": "raise", "event_index": i, "exc": "PermissionError"})
-                    faults.append({"kind": "raise", "event_index": i, "exc": "ENOSPC"})
-                    faults.append({"kind": "kill", "event_index": i, "when": "before"})
-                    faults.append({"kind": "kill", "event_index": i, "when": "after"})
-                    faults.append({"kind": "raise", "event_index": i, "exc": "ENOSPC", "when": "after"})
-                    if ref["events"][i]["op"] == "write":
-                        for frac in (0.0, 0.5, 0.99):
-                            faults.append({"kind": "shortwrite", "event_index": i, "frac": frac, "then": "raise"})
-                            faults.append({"kind": "shortwrite", "event_index": i, "frac": frac, "then": "kill"})
-                for nbytes in sorted({0, 1, 100, len(new) // 2, len(new) - 1, 4096, 8192}):
-                    if nbytes < len(new):
-                        faults.append({"kind": "rlimit", "bytes": nbytes, "ignore_signal": True})
-                        faults.append({"kind": "rlimit", "bytes": nbytes, "ignore_signal": False})
-                for f in faults:
-                    n += 1
-                    jobs.append((os.path.join(tmp, f"w{n}"), label, mf, rname, req, dict(f, metafile_name=mfname), old, new, replace_idx))
-            for rname, req in (UNENCODABLE if ctx.tier == "thorough" else UNENCODABLE[:2]):
-                n += 1
-                jobs.append((os.path.join(tmp, f"w{n}"), label, mf, rname, req, {"kind": "none", "unencodable": True}, old, None, None))
+                                     {"metafile": label, "request": req, "base_hex": old.hex(), "fault": dict(tag, kind="none")}, exp, obs)
+                if ref["left"] != [mfname] or ref["tmp_left"]:
+                    ctx.notes.append(f"files left beside the metafile / in $TMPDIR after a successful edit: {ref['left']} {ref['tmp_left']}")
+                ridx = replace_index(ref["events"])
+                todo = [dict(f, **tag) for f in single_faults(ref["events"], len(new))]
+                # (a) an EARLIER edit killed at each operation, then this edit without any fault
+                for pi, (pname, preq) in enumerate(PRE_REQUESTS):
+                    if not thorough and pname != "longer" and (pair + pi) % 2:
+                        continue
+                    preq = dict(req) if preq is None else preq
+                    pref = go(mf, preq, dict(tag, kind="none"))
+                    if pref["rc"] != 0 or pref["after"] is None:
+                        continue
+                    refs.put(old, preq, pref["after"])
+                    for kf in kill_faults(pref["events"]):
+                        todo.append(dict(tag, kind="none", pre=[{"request": preq, "fault": kf}], pre_name=pname))
+                        if thorough and pname == "longer" and kf.get("when") == "after":
+                            # ... and this edit under a fault of its own
+                            for i in range(len(ref["events"])):
+                                todo.append(dict(tag, kind="raise", exc="PermissionError", event_index=i,
+                                                 pre=[{"request": preq, "fault": kf}], pre_name=pname))
+                # (b) PLANTED stale entries under every name the edit writes beside the metafile
+                names = written_beside(ref["events"])
+                if not names:
+                    ctx.case(key=("no-temp-name", label, rname, where), classes=["no file beside the metafile written: nothing to plant"], nontrivial=False)
+                for nm in names:
+                    for size in sorted({0, 1, len(new) - 1, len(new), len(new) + 1, len(new) + 4096, 3 * len(new)}):
+                        todo.append(dict(tag, kind="none", stale=[{"name": nm, "type": "file", "size": size}]))
+                    todo.append(dict(tag, kind="none", stale=[{"name": nm, "type": "dir"}]))
+                    todo.append(dict(tag, kind="none", stale=[{"name": nm, "type": "dir", "nonempty": True}]))
+                    if thorough:
+                        for i in range(len(ref["events"])):
+                            for base in ({"kind": "raise", "exc": "ENOSPC"}, {"kind": "kill", "when": "after"}):
+                                todo.append(dict(tag, **base, event_index=i, stale=[{"name": nm, "type": "file", "size": len(new) + 4096}]))
+                for f in todo:
+                    jobs.append((label, mf, rname, req, f, old, new, ridx))
+        for uname, ureq, via in (UNENCODABLE if thorough else UNENCODABLE[:5]):
+            f = {"kind": "none", "unencodable": True}
+            if via == "cli":
+                f["via"] = "cli"
+            jobs.append((label, mf, uname, ureq, f, old, None, None))
 
-        def work(job):
-            wd, label, mf, rname, req, f, old, new, ridx = job
-            return job, run_one(wd, mf, req, f, name=f.get("metafile_name", "m.torrent"))
-        with ThreadPoolExecutor(max_workers=12) as ex:
-            results = list(ex.map(work, jobs))
-        for job, r in results:
-            wd, label, mf, rname, req, f, old, new, ridx = job
-            after = r["after"]
-            kind = f["kind"] + (":" + f.get("exc", "") if f.get("exc") else "") + (":" + f.get("then", "") if f.get("then") else "") \
-                + (":" + f.get("when", "") if f.get("when") else "")
-            desc = {"metafile": label, "request": req, "fault": f}
-            ok, why = judge(f, r, old, new, ridx)
-            if not ok:
-                # the metafile's bytes make the replay exact (the payload behind it is random per run)
-                ctx.fail("edit-fault:" + kind.split(":")[0], dict(desc, base_hex=old.hex()), "complete original or complete edited metafile",
-                         {"rc": r["rc"], "out": r["out"], "why": why, "len_after": None if after is None else len(after)})
-            ctx.case(key=(label, rname, json.dumps(f, sort_keys=True)), classes=["fault " + kind, "metafile " + label])
-        ctx.exhaustive = True
-        ctx.extra["fault_runs"] = len(jobs)
+    def work(job):
+        label, mf, rname, req, f, old, new, ridx = job
+        return job, go(mf, req, f)
+    with ThreadPoolExecutor(max_workers=12) as ex:
+        results = list(ex.map(work, jobs))
+    for job, r in results:
+        label, mf, rname, req, f, old, new, ridx = job
+        after = r["after"]
+        kind = fault_kind(f) + (":" + f["kind"] if fault_kind(f) != f["kind"] else "") + (":" + f.get("exc", "") if f.get("exc") else "") \
+            + (":" + f.get("then", "") if f.get("then") else "") + (":" + f.get("when", "") if f.get("when") else "")
+        desc = {"metafile": label, "request": req, "fault": f}
+        old_e, new_e, problem = effective(f, r, old, new, req, refs)
+        if problem:
+            ok, why = False, problem
+        elif f.get("pre") and new_e is None:
+            ok, why = True, ""          # the reference edit of the intermediate state fails by itself: nothing to compare with
+        else:
+            ok, why = judge(f, r, old_e, new_e, ridx)
+        if not ok:
+            # the metafile's bytes make the replay exact (the payload behind it is random per run)
+            ctx.fail("edit-fault:" + fault_kind(f), dict(desc, base_hex=old.hex()), "complete original or complete edited metafile",
+                     {"rc": r["rc"], "out": r["out"], "why": why, "len_after": None if after is None else len(after),
+                      "left_by_the_killed_edit": r.get("stale_left")})
+        classes = ["fault " + kind, "metafile " + label]
+        if f.get("where"):
+            classes.append("metafile and $TMPDIR on different filesystems")
+        if f.get("via"):
+            classes.append("via " + f["via"])
+        if f.get("pre"):
+            sl = [v for v in (r.get("stale_left") or {}).values()]
+            nl = len(new) if new is not None else 0
+            classes.append("earlier edit killed: " + ("nothing left behind" if not sl else
+                                                     "stale file LONGER than the new encoding left behind" if max(sl) > nl else
+                                                     "stale file as long as the new encoding left behind" if max(sl) == nl else
+                                                     "stale file shorter than the new encoding left behind"))
+        for st in f.get("stale", ()):
+            nl = len(new) if new is not None else 0
+            classes.append("planted stale " + ("directory" if st.get("type") == "dir" else
+                                               "file longer than the new encoding" if st["size"] > nl else
+                                               "file as long as the new encoding" if st["size"] == nl else
+                                               "empty file" if st["size"] == 0 else "file shorter than the new encoding"))
+        ctx.case(key=(label, rname, json.dumps(f, sort_keys=True)), classes=classes)
+    ctx.exhaustive = True
+    ctx.extra["fault_runs"] = len(jobs)
+    ctx.extra["other_filesystem"] = bool(xroot)
 
 
 # --------------------------------------------------------------------------- replay
@@ -332,35 +576,81 @@ def _base(tmp, base):
     return src
 
 
-def _reference(tmp, base, req, name="m.torrent"):
-    """fault-free run on a copy of the recorded metafile: (result, replace index)"""
+_XROOT = []
+
+
+def _go(tmp, base, req, f, name):
+    """one run of the recorded case: on the other filesystem when the fault says so (None when there is none on this machine)"""
     k = len(os.listdir(tmp))
-    ref = run_one(os.path.join(tmp, f"ref{k}"), _base(tmp, base), req, {"kind": "none"}, name=name)
-    ridx = next((e["i"] for e in ref["events"] if e["op"] in ("replace", "rename") and "PM" in e["paths"][1:]), None)
-    return ref, ridx
+    root = tmp
+    if f.get("where") == "other-fs":
+        if not _XROOT:
+            _XROOT.append(other_fs_root())
+        if _XROOT[0] is None:
+            return None
+        root = _XROOT[0]
+    os.makedirs(os.path.join(tmp, f"mark{k}"))
+    return run_one(os.path.join(root, f"run{k}"), _base(tmp, base), req, f, name=name, tmpdir=os.path.join(tmp, f"tmpdir{k}"))
+
+
+def _reference(tmp, base, req, name="m.torrent", where=None):
+    """fault-free run on a copy of the recorded metafile: (result, replace index)"""
+    ref = _go(tmp, base, req, {"kind": "none", **({"where": where} if where else {})}, name)
+    if ref is None:
+        return None, None
+    return ref, replace_index(ref["events"])
 
 
 def _replay_fault(inp, tmp):
     base, req, f = bytes.fromhex(inp["base_hex"]), inp["request"], inp["fault"]
-    print(f"[C17 replay] metafile {inp.get('metafile')} ({len(base)} bytes), request {json.dumps(req)}, fault {json.dumps(f)}")
+    name = inp.get("metafile_name") or f.get("metafile_name", "m.torrent")
+    print(f"[C17 replay] metafile {inp.get('metafile')} ({len(base)} bytes) under the name {name!r}"
+          + (", on ANOTHER filesystem than $TMPDIR" if f.get("where") else "") + f", request {json.dumps(req)}, fault {json.dumps(f)}")
     new = ridx = None
-    if not f.get("unencodable"):
-        ref, ridx = _reference(tmp, base, req, name=inp.get("metafile_name") or f.get("metafile_name", "m.torrent"))
-        if ref["rc"] != 0 or ref["after"] is None:
-            print(f"[C17 replay] VIOLATION edit-failed-without-fault: exit {ref['rc']} {ref['out']}")
-            return 1
-        new = ref["after"]
-        print(f"[C17 replay] fault-free run: {len(new)} bytes written, operations {canon_events(ref['events'])}, replace at index {ridx}")
-    r = run_one(os.path.join(tmp, "fault"), _base(tmp, base), req, f, name=inp.get("metafile_name") or f.get("metafile_name", "m.torrent"))
-    ok, why = judge(f, r, base, new, ridx)
-    after = r["after"]
-    print(f"[C17 replay] under the fault: exit {r['rc']} {r['out']!r}; operations reached {canon_events(r['events'])}; metafile path holds "
-          + ("NOTHING" if after is None else f"{len(after)} bytes = " + ("the original" if after == base else "the edited file" if after == new
-                                                                        else "NEITHER the original nor the edited file"))
-          + f"; beside it: {[x for x in r['left'] if x != 'm.torrent']}")
-    if not ok:
-        print("[C17 replay] VIOLATION", "edit-fault:" + f["kind"], "-", why)
-    return 0 if ok else 1
+    try:
+        if not f.get("unencodable"):
+            ref, ridx = _reference(tmp, base, req, name=name, where=f.get("where"))
+            if ref is None:
+                print("replay: cannot rebuild input of kind edit-fault (no second writable filesystem on this machine; set VERIF_OTHER_FS)")
+                return 2
+            if ref["rc"] != 0 or ref["after"] is None:
+                print(f"[C17 replay] VIOLATION edit-failed-without-fault: exit {ref['rc']} {ref['out']}")
+                return 1
+            new = ref["after"]
+            print(f"[C17 replay] fault-free run: {len(new)} bytes written, operations {canon_events(ref['events'])}, replace at index {ridx}")
+        for st in f.get("stale", ()):
+            print(f"[C17 replay] planted beside the metafile before the edit: {json.dumps(st)}")
+        r = _go(tmp, base, req, f, name)
+        if r is None:
+            print("replay: cannot rebuild input of kind edit-fault (no second writable filesystem on this machine; set VERIF_OTHER_FS)")
+            return 2
+        refs = Refs(tmp)
+        if new is not None:
+            refs.put(base, req, new)
+        old_e, new_e, problem = effective(f, r, base, new, req, refs)
+        if f.get("pre"):
+            mid = r["mid"]
+            print(f"[C17 replay] earlier edit(s) {json.dumps(f['pre'])}: exit {r['pre_rc']}; left behind {r['stale_left']}; metafile then holds "
+                  + ("NOTHING" if mid is None else f"{len(mid)} bytes = " + ("the original" if mid == base else "another state")))
+        if problem:
+            ok, why = False, problem
+        elif f.get("pre") and new_e is None:
+            ok, why = True, ""
+        else:
+            ok, why = judge(f, r, old_e, new_e, ridx)
+        after = r["after"]
+        print(f"[C17 replay] under the fault: exit {r['rc']} {r['out']!r}; operations reached {canon_events(r['events'])}; metafile path holds "
+              + ("NOTHING" if after is None else f"{len(after)} bytes = " + ("the previous file" if after == old_e else "the edited file" if after == new_e
+                                                                            else "NEITHER the previous nor the edited file"))
+              + f"; beside it: {[x for x in r['left'] if x != name]}; in $TMPDIR: {r['tmp_left']}")
+        if not ok:
+            print("[C17 replay] VIOLATION", "edit-fault:" + fault_kind(f), "-", why)
+        return 0 if ok else 1
+    finally:
+        while _XROOT:
+            x = _XROOT.pop()
+            if x:
+                shutil.rmtree(x, ignore_errors=True)
 
 
 def _replay_trace(inp, tmp):
@@ -372,7 +662,11 @@ def _replay_trace(inp, tmp):
     except Exception as e:  # noqa
         print(f"[C17 replay] STILL BROKEN: translator crashed on edit.py: {type(e).__name__}: {e}")
         return 1
-    ref, ridx = _reference(tmp, base, req)
+    tag = inp.get("fault") or {}
+    ref, ridx = _reference(tmp, base, req, name=tag.get("metafile_name", "m.torrent"), where=tag.get("where"))
+    if ref is None:
+        print("replay: cannot rebuild input of kind disagreement (no second writable filesystem on this machine; set VERIF_OTHER_FS)")
+        return 2
     if ref["rc"] != 0 or ref["after"] is None:
         print(f"[C17 replay] VIOLATION edit-failed-without-fault: exit {ref['rc']} {ref['out']}")
         return 1
@@ -405,7 +699,8 @@ def replay(ctx, data):
             if "base_hex" not in inp or "request" not in inp:
                 rcs.append(cannot(kind, "the bytes of the metafile were not recorded in this file"))
             else:
-                rcs.append(_replay_fault(dict(inp, fault={"kind": "none"}), tmp))
+                tag = {k: v for k, v in (inp.get("fault") or {}).items() if k in ("where", "metafile_name")}
+                rcs.append(_replay_fault(dict(inp, fault=dict(tag, kind="none")), tmp))
         elif kind == "proof-or-correspondence-broken" or "what" in data:
             dis = data.get("disagreements") or ([data] if "what" in data else [])
             for d in dis[:5]:
